@@ -715,6 +715,9 @@ def check_C07(v, tier, seed):
             flags = int(c.op[2])
             d = res_fd(c)
             creation = flags & (0o100 | 0o200) or (flags & 0o20200000) == 0o20200000
+            # open_follow adds O_DIRECTORY for a trailing slash: the bare __O_TMPFILE bit then is O_TMPFILE (finding F21)
+            if c.op[0] == "proc_open_follow" and flags & 0o20000000 and path.endswith(b"/") and path.strip(b"/"):
+                creation = True
             if creation and c.op[0] != "proc_readlink":
                 if c.res[:1] != ["err"]:
                     msg = f"creation flags not refused: {' '.join(c.res)}"
@@ -738,6 +741,8 @@ def check_C07(v, tier, seed):
             path = unhex(c.op[3])
             if path == b"" or b".." in path.split(b"/"):
                 continue  # outside the agreement clause of the property
+            if int(c.op[2]) & 0o20000000 and (int(c.op[2]) & 0o20200000) != 0o20200000:
+                continue  # the bare __O_TMPFILE bit is not a flag set openat2 accepts (EINVAL); only the F21 clause uses it
             import re as _re
             mfd = _re.search(rb"(^|/)fd(info)?/(\d+)", path)
             if mfd and int(mfd.group(3)) > 2:
